@@ -137,6 +137,9 @@ type Obs struct {
 	Reports []g.Report
 	RecSt   []g.CoreState
 	RecOwn  []int
+	// a second recorder with read recording switched on
+	RecSt2  []g.CoreState
+	RecOwn2 []int
 	// after a second RunCycle (only when requested)
 	Core2  []g.Instruction
 	Queue2 []g.Address
@@ -162,12 +165,15 @@ func Exec(st *State, listen bool) (o Obs) {
 		return
 	}
 	var rc *recorder
-	var sr *g.StateRecorder
+	var sr, sr2 *g.StateRecorder
 	if listen {
 		rc = &recorder{}
 		sim.AddReporter(rc)
 		sr = g.NewStateRecorder(sim)
 		sim.AddReporter(sr)
+		sr2 = g.NewStateRecorder(sim)
+		sr2.SetRecordRead(true)
+		sim.AddReporter(sr2)
 	}
 	w, err := sim.AddWarrior(&g.WarriorData{Code: st.Core, Start: int(st.PC)})
 	if err != nil {
@@ -199,8 +205,11 @@ func Exec(st *State, listen bool) (o Obs) {
 		o.Reports = rc.reps
 		o.RecSt = make([]g.CoreState, st.M)
 		o.RecOwn = make([]int, st.M)
+		o.RecSt2 = make([]g.CoreState, st.M)
+		o.RecOwn2 = make([]int, st.M)
 		for a := uint64(0); a < st.M; a++ {
 			o.RecSt[a], o.RecOwn[a] = sr.GetMemState(g.Address(a))
+			o.RecSt2[a], o.RecOwn2[a] = sr2.GetMemState(g.Address(a))
 		}
 	}
 	return
@@ -662,6 +671,44 @@ func (c *Checker) check15(st *State, o *Obs, out *ref.StepOut, died bool) {
 			if rep.Hit("C15", "recorder-state") {
 				rep.Add("C15", "recorder-state", st.String(), fmt.Sprintf("cell %d recorder=(%d,%d) expected one of %v owner 0", a, o.RecSt[a], o.RecOwn[a], acc[a]))
 			}
+		}
+	}
+	// the read-recording recorder: the last-operation fold of the report
+	// stream itself, reads included (which reads are reported is not part of
+	// the property; that the recorder shows the last reported operation is)
+	fold := make([]g.CoreState, M)
+	for a := range fold {
+		fold[a] = g.CoreWritten
+	}
+	for _, r := range o.Reports {
+		if uint64(r.Address) >= M {
+			continue
+		}
+		switch r.Type {
+		case g.WarriorSpawn:
+			for a := range fold {
+				fold[a] = g.CoreWritten
+			}
+		case g.WarriorTaskPop:
+			fold[r.Address] = g.CoreExecuted
+		case g.WarriorTaskTerminate:
+			fold[r.Address] = g.CoreTerminated
+		case g.WarriorWrite:
+			fold[r.Address] = g.CoreWritten
+		case g.WarriorRead:
+			fold[r.Address] = g.CoreRead
+		case g.WarriorIncrement:
+			fold[r.Address] = g.CoreIncremented
+		case g.WarriorDecrement:
+			fold[r.Address] = g.CoreDecremented
+		}
+	}
+	for a := uint64(0); a < M; a++ {
+		if o.RecSt2[a] != fold[a] || o.RecOwn2[a] != 0 {
+			if rep.Hit("C15", "recorder-state-with-reads") {
+				rep.Add("C15", "recorder-state-with-reads", st.String(), fmt.Sprintf("cell %d: the read-recording recorder shows (%d,%d), the last report about the cell gives state %d owner 0", a, o.RecSt2[a], o.RecOwn2[a], fold[a]))
+			}
+			break
 		}
 	}
 }
